@@ -110,6 +110,16 @@ pub struct SavedVmState {
     pub new_target: JsValue,
     /// Trampoline call stack (for nested function calls)
     pub trampoline_stack: Vec<SavedTrampolineFrame>,
+    /// `this` of the suspended frame (None: supplied by whoever resumes, e.g. a generator)
+    pub this_value: Option<JsValue>,
+    /// Block scopes that were open in the suspended frame
+    pub saved_env_stack: Vec<Gc<JsObject>>,
+    /// Completion that was pending while a finally block ran (e.g. `return` before the await)
+    pub pending_completion: Option<SavedCompletion>,
+    /// Exception caught but not yet bound by the catch clause
+    pub exception_value: Option<JsValue>,
+    /// Constructor whose body is running (for super lookups after resumption)
+    pub current_constructor: Option<Gc<JsObject>>,
 }
 
 /// A call frame in the VM
@@ -144,6 +154,82 @@ pub struct TryHandler {
     /// Iterator register for for-of iterator close (None for regular try)
     /// When set, this is a PushIterTry handler that should close the iterator on exception
     pub iterator_reg: Option<Register>,
+}
+
+/// Clone-able form of a pending completion / caught exception for saved (suspended) state.
+/// The values are kept alive by the saved state's guard.
+#[derive(Clone)]
+pub enum SavedCompletion {
+    Return(JsValue),
+    Throw(JsValue),
+    Break {
+        target: usize,
+        try_depth: u8,
+        scope_depth: u16,
+    },
+    Continue {
+        target: usize,
+        try_depth: u8,
+        scope_depth: u16,
+    },
+}
+
+impl SavedCompletion {
+    fn from_pending(pending: &PendingCompletion, guard: &Guard<JsObject>) -> Self {
+        let keep = |v: &JsValue| {
+            if let JsValue::Object(obj) = v {
+                guard.guard(obj.cheap_clone());
+            }
+            v.clone()
+        };
+        match pending {
+            PendingCompletion::Return(g) => SavedCompletion::Return(keep(&g.value)),
+            PendingCompletion::Throw(g) => SavedCompletion::Throw(keep(&g.value)),
+            PendingCompletion::Break {
+                target,
+                try_depth,
+                scope_depth,
+            } => SavedCompletion::Break {
+                target: *target,
+                try_depth: *try_depth,
+                scope_depth: *scope_depth,
+            },
+            PendingCompletion::Continue {
+                target,
+                try_depth,
+                scope_depth,
+            } => SavedCompletion::Continue {
+                target: *target,
+                try_depth: *try_depth,
+                scope_depth: *scope_depth,
+            },
+        }
+    }
+
+    fn into_pending(self, heap: &crate::gc::Heap<JsObject>) -> PendingCompletion {
+        match self {
+            SavedCompletion::Return(v) => PendingCompletion::Return(Guarded::from_value(v, heap)),
+            SavedCompletion::Throw(v) => PendingCompletion::Throw(Guarded::from_value(v, heap)),
+            SavedCompletion::Break {
+                target,
+                try_depth,
+                scope_depth,
+            } => PendingCompletion::Break {
+                target,
+                try_depth,
+                scope_depth,
+            },
+            SavedCompletion::Continue {
+                target,
+                try_depth,
+                scope_depth,
+            } => PendingCompletion::Continue {
+                target,
+                try_depth,
+                scope_depth,
+            },
+        }
+    }
 }
 
 /// Pending completion to be executed after finally block
@@ -198,6 +284,10 @@ pub struct SavedTrampolineFrame {
     pub construct_new_obj: Option<Gc<JsObject>>,
     /// For async function calls: wrap result in a Promise when returning
     pub is_async: bool,
+    /// Completion pending in this caller frame (it is inside a finally block)
+    pub pending_completion: Option<SavedCompletion>,
+    /// Exception caught in this caller frame but not yet bound
+    pub exception_value: Option<JsValue>,
 }
 
 /// A saved VM frame for the trampoline call stack
@@ -1889,9 +1979,28 @@ impl BytecodeVM {
                     saved_interp_env: frame.saved_interp_env.cheap_clone(),
                     construct_new_obj: frame.construct_new_obj.clone(),
                     is_async: frame.is_async,
+                    pending_completion: frame
+                        .pending_completion
+                        .as_ref()
+                        .map(|p| SavedCompletion::from_pending(p, &guard)),
+                    exception_value: frame.exception_value.as_ref().map(|g| {
+                        if let JsValue::Object(obj) = &g.value {
+                            guard.guard(obj.cheap_clone());
+                        }
+                        g.value.clone()
+                    }),
                 }
             })
             .collect();
+
+        if let Some(ref ctor) = self.current_constructor {
+            guard.guard(ctor.cheap_clone());
+        }
+        let pending_completion = self
+            .pending_completion
+            .as_ref()
+            .map(|p| SavedCompletion::from_pending(p, &guard));
+        let exception_value = self.exception_value.as_ref().map(|g| g.value.clone());
 
         SavedVmState {
             frames: self.call_stack.clone(),
@@ -1899,10 +2008,15 @@ impl BytecodeVM {
             chunk: self.chunk.clone(),
             registers: self.registers.clone(),
             try_stack: self.try_stack.clone(),
-            guard: Some(guard),
             arguments: self.arguments.clone(),
             new_target: self.new_target.clone(),
             trampoline_stack: saved_trampoline_stack,
+            this_value: Some(self.this_value.clone()),
+            saved_env_stack: self.saved_env_stack.clone(),
+            pending_completion,
+            exception_value,
+            current_constructor: self.current_constructor.clone(),
+            guard: Some(guard),
         }
     }
 
@@ -1914,9 +2028,18 @@ impl BytecodeVM {
         guard: Guard<JsObject>,
         heap: &crate::gc::Heap<JsObject>,
     ) -> Self {
+        // The suspended frame's own `this` wins over the caller-supplied default
+        let this_value = state.this_value.clone().unwrap_or(this_value);
+
         // Guard this_value if it's an object
         if let JsValue::Object(obj) = &this_value {
             guard.guard(obj.cheap_clone());
+        }
+        for env in &state.saved_env_stack {
+            guard.guard(env.cheap_clone());
+        }
+        if let Some(ref ctor) = state.current_constructor {
+            guard.guard(ctor.cheap_clone());
         }
 
         // Guard all objects in the restored registers
@@ -1971,12 +2094,14 @@ impl BytecodeVM {
                     this_value: saved.this_value,
                     vm_call_stack: saved.vm_call_stack,
                     try_stack: saved.try_stack,
-                    exception_value: None, // Lost during save, but we handle exceptions differently on resume
+                    exception_value: saved
+                        .exception_value
+                        .map(|v| Guarded::from_value(v, heap)),
                     saved_env_stack: saved.saved_env_stack,
                     arguments: saved.arguments,
                     new_target: saved.new_target,
                     current_constructor: saved.current_constructor,
-                    pending_completion: None, // Lost during save
+                    pending_completion: saved.pending_completion.map(|p| p.into_pending(heap)),
                     return_register: saved.return_register,
                     saved_interp_env: saved.saved_interp_env,
                     register_guard: frame_guard,
@@ -1994,12 +2119,14 @@ impl BytecodeVM {
             call_stack: state.frames,
             try_stack: state.try_stack,
             this_value,
-            exception_value: None,
-            saved_env_stack: Vec::new(),
+            exception_value: state
+                .exception_value
+                .map(|v| Guarded::from_value(v, heap)),
+            saved_env_stack: state.saved_env_stack,
             arguments: state.arguments,
             new_target: state.new_target,
-            current_constructor: None,
-            pending_completion: None,
+            current_constructor: state.current_constructor,
+            pending_completion: state.pending_completion.map(|p| p.into_pending(heap)),
             trampoline_stack,
             register_pool: Vec::new(),
             arguments_pool: Vec::new(),
